@@ -18,8 +18,11 @@ from comb_spec_searcher.strategies.rule import EquivalenceRule, ReverseRule
 
 import sys
 
-if "/repo" not in sys.path:
-    sys.path.append("/repo")  # the word example of the repository lives next to the package
+import os
+
+_REPO = os.environ.get("VERIF_REPO") or "/repo"
+if _REPO not in sys.path:
+    sys.path.append(_REPO)  # the word example of the repository lives next to the package
 import example  # noqa: E402
 
 import harness.e2e as e2e
